@@ -30,6 +30,9 @@ def evaluate(designs, stream, spice=False):
 
 def run(run, tier, seed, replay=None):
     quick = tier == "quick"
+    if replay is not None and replay.get("fragment") == "bundles":
+        from . import c01b
+        return c01b.replay(run, replay["case"])
     if replay is not None:
         designs = [replay["case"]]
         outs, bad = evaluate(designs, "replay")
@@ -65,6 +68,9 @@ def run(run, tier, seed, replay=None):
     report(run, "designs", bad, designs, outs)
     run.sample(dict(stream="designs", design=designs[len(designs) // 2]))
     run.coverage["traces_validated_against_impl"] = len(designs)
+    # the bundle fragment (harness/vp/c01b.py, Corr/C01B.v, Props/C01B.v)
+    from . import c01b
+    c01b.run_streams(run, tier, seed)
 
 
 def corpus():
